@@ -11,7 +11,7 @@
      quest_small q the question fits the wire format (name <= 255 octets)
      cfg_wf c      the ECS / NSID oracle options have the codes 8 / 3
      hdr_agrees    the library decoded ID and opcode from the packet header            *)
-From Sdns Require Import Common.Base Common.GoList Gen.C06 C06.Model C06.WireOpt C06.Run C06.Proofs C06.Proofs_wire C06.Proofs_hit.
+From Sdns Require Import Common.Base Common.GoList Gen.C06 C06.Model C06.WireOpt C06.Run C06.Proofs C06.Proofs_wire C06.Proofs_hit C06.Proofs_word C06.Proofs_filters.
 Open Scope N_scope.
 
 (* datagram / stream listeners: QR set, the packet's ID and opcode echoed, on every reply *)
@@ -310,7 +310,7 @@ Theorem cache_entry_hit_keeps_stored :
   forall hops st q h iad,
     hit_wire (st :: hops) q = Some (h, iad) ->
     h_ra h = h_ra st /\ h_tc h = h_tc st /\ h_rcode h = h_rcode st.
-Proof. intros hops st q h iad H. destruct (hit_wire_header _ _ _ _ _ H) as (_&_&_&_&_&_&?&?&?). auto. Qed.
+Proof. exact cache_entry_hit_keeps_stored_l. Qed.
 Print Assumptions cache_entry_hit_keeps_stored.
 
 (* the WireInfo the cache passes is truthful about AD — the premise [iad = h_ad (m_hdr d)] of
@@ -369,3 +369,153 @@ Theorem wire_info_truth_necessary :
 Proof. exact wire_info_truth_necessary_l. Qed.
 Print Assumptions wire_info_truth_necessary.
 
+(* ---- session 5: the Msg-path routes of the cache, and the question section of every product ----
+   [produce_msg p q] is the header of the message a Msg-path route of Cache.ServeDNS hands to the
+   writer chain (ch.Writer.WriteMsg), for EVERY request header [q] and EVERY stored header:
+     MEntry st subs   handleCacheHit: entry.ToMsg(req), then additionalAnswer with the sub-pipeline
+                      answering [subs] (AD, rcode, carried records) in that order
+     MCut stc         handleNXDomainCutHit: nxDomainCutEntry.response(req) on the stored proof message
+     MFailure         handleFailureHit: FailureHit.Response(req)
+     MNoRec           an RD = 0 query: Chain.CancelWithRcode(SERVFAIL) before any lookup
+   [product_q q] is the question section of every product, byte path or Msg path: the request's first
+   question, spelling included (checked on every cache case).  Not modelled: RFC 8198 synthesis
+   (handleDenialProofHit) and additionalAnswer's exits through dnsutil.SetRcode (alias loop, work limits). *)
+
+(* "reply header derived from request" on the Msg path: QR set, ID and opcode echoed, AA cleared on
+   every route; for opcode-0 requests (the only ones the edns layer hands on) CD echoed, and RD too
+   unless the query is refused for RD = 0 *)
+Theorem cache_msg_header_from_request :
+  forall p q h,
+    produce_msg p q = Some h ->
+    h_qr h = true /\ h_id h = h_id q /\ h_opcode h = h_opcode q /\ h_aa h = false
+    /\ (h_opcode q = 0 -> h_cd h = h_cd q)
+    /\ (h_opcode q = 0 -> p <> MNoRec -> h_rd h = h_rd q).
+Proof. exact produce_msg_header. Qed.
+Print Assumptions cache_msg_header_from_request.
+
+(* AD on the Msg path: for an entry-based answer only if the entry was stored validated, the client
+   did not set CD, and every sub-response the alias chase consumed with records was validated;
+   never under CD on any route *)
+Theorem cache_msg_hit_ad_only_when_validated :
+  forall st subs q h,
+    produce_msg (MEntry st subs) q = Some h -> h_ad h = true ->
+    h_cd q = false /\ h_ad st = true /\ forall s, In s (chase_taken subs) -> s_recs s = true -> s_ad s = true.
+Proof. exact produce_msg_ad. Qed.
+Print Assumptions cache_msg_hit_ad_only_when_validated.
+
+Theorem cache_msg_no_ad_under_cd :
+  forall p q h, produce_msg p q = Some h -> h_cd q = true -> h_ad h = false.
+Proof. exact produce_msg_ad_cd. Qed.
+Print Assumptions cache_msg_no_ad_under_cd.
+
+(* "the same rules on bytes", cache side: for every opcode-0 request the byte path and the Msg path
+   of the cache hand over the same header — an exact entry; an alias chain completed from cached
+   hops (the sub-pipeline answering each hop from its entry: sub_of_hop); the RFC 8020 cut (stored
+   proof without TC / Z — the byte template has no flags); the RFC 9520 failure.  Together with
+   wire_path_agrees (edns side) the client gets the same reply whichever path served it. *)
+Theorem cache_paths_same_header :
+  forall q, h_opcode q = 0 ->
+    (forall st, hit_wire [st] q = Some (to_msg_hdr st q, h_ad (to_msg_hdr st q)))
+    /\ (forall alias hops, Forall (fun x => h_rcode x <> rcode_nxdomain) hops ->
+          option_map fst (hit_wire (alias :: hops) q) = produce_msg (MEntry alias (map (sub_of_hop (h_cd q)) hops)) q)
+    /\ (forall stc, h_tc stc = false -> h_z stc = false -> option_map fst (produce PCut q) = produce_msg (MCut stc) q)
+    /\ option_map fst (produce PFailure q) = produce_msg MFailure q.
+Proof. exact cache_paths_same_header_l. Qed.
+Print Assumptions cache_paths_same_header.
+
+(* the premise dn_echo of the edns theorems, discharged for every product of the cache *)
+Theorem cache_products_are_replies :
+  forall q d, length (m_q q) = 1%nat -> m_q d = product_q q ->
+    (forall p h, produce_msg p (m_hdr q) = Some h -> m_hdr d = h -> dn_echo q d)
+    /\ (forall p h iad, produce p (m_hdr q) = Some (h, iad) -> m_hdr d = h -> dn_echo q d).
+Proof. exact cache_products_are_replies_l. Qed.
+Print Assumptions cache_products_are_replies.
+
+(* END TO END with the cache as the downstream, Msg path — NO premise about the downstream response
+   beyond "it is a product of the cache": through Server.serveMsgBy, the edns handler and
+   ResponseWriter.WriteMsg the reply echoes QR / ID (0 on DoQ) / opcode and the question, carries an
+   OPT only if asked, no RRSIG / NSEC / NSEC3 without DO or qtype RRSIG, and AD clear for a CD or
+   neither-DO-nor-AD client — whatever records, OPTs and bits the cached state holds *)
+Theorem cache_reply_respects_client :
+  forall tr c q strict p d h clen r,
+    length (m_q q) = 1%nat ->
+    produce_msg p (m_hdr q) = Some h -> m_hdr d = h -> m_q d = product_q q ->
+    serve_msg tr c q strict (Some d) clen = Some r ->
+    hdr_echo tr q r = true
+    /\ (is_bare_reject r = true \/ quest_echo q r = true)
+    /\ (has_opt r = true -> client_opt q <> None)
+    /\ (client_do q = false -> asked_rrsig q = false -> no_dnssec r = true)
+    /\ (h_cd (m_hdr q) = true \/ (client_do q = false /\ h_ad (m_hdr q) = false) ->
+        is_bare_reject r = true \/ h_ad (m_hdr r) = false).
+Proof. exact cache_reply_respects_client_l. Qed.
+Print Assumptions cache_reply_respects_client.
+
+(* byte path: the question the cache copied into the body is the question that leaves *)
+Theorem question_echo_cache_wire_hit :
+  forall tr c w q d iad hasd ede blen r,
+    m_q d = product_q q -> write_wire tr c w d iad hasd ede blen = Some r -> quest_echo q r = true.
+Proof. exact hit_quest_echo_l. Qed.
+Print Assumptions question_echo_cache_wire_hit.
+
+(* END TO END with the cache as the downstream, byte path: a product of ANY of the cache's four
+   byte-path producers that ResponseWriter.WriteWire accepts reaches the client with every clause of
+   the statement — header echo, question echo, OPT only if asked, no DNSSEC records without DO /
+   RRSIG, AD clear for a CD or neither-DO-nor-AD client, every option this server's own (cookie
+   against the client's, NSID when asked, TCP keepalive when asked) or the Extended DNS Error the cache
+   passes, no ECS, and over UDP body + OPT within max(512, min(advertised, 1232)).  Premises = what the
+   writer relies on its caller for, each checked on every cache case (Run.hit_wire_facts_ok,
+   hit_producer_ok): the body carries no OPT, its question is the request's, WireInfo.HasDNSSEC is
+   truthful, the EDE passed is an EDE.  Unlike wire_path_agrees this covers bodies with a stored EDE. *)
+Theorem cache_wire_reply_respects_client :
+  forall tr c q strict p d h iad hasd ede blen r,
+    let w := mk_wstate tr strict q (set_edns0 c q) in
+    cfg_wf c -> client_ver q = 0 ->
+    produce p (m_hdr q) = Some (h, iad) -> m_hdr d = h -> m_q d = product_q q ->
+    filter is_opt (m_ex d) = [] ->
+    (hasd = false -> asked_rrsig q = true \/ no_dnssec d = true) ->
+    (forall x, ede = Some x -> e_code x = code_ede) ->
+    write_wire tr c w d iad hasd ede blen = Some r ->
+    (h_qr (m_hdr r) = true /\ h_id (m_hdr r) = h_id (m_hdr q) /\ h_opcode (m_hdr r) = h_opcode (m_hdr q))
+    /\ quest_echo q r = true
+    /\ (has_opt r = true -> client_opt q <> None)
+    /\ (client_do q = false -> asked_rrsig q = false -> no_dnssec r = true)
+    /\ (h_cd (m_hdr q) = true \/ (client_do q = false /\ h_ad (m_hdr q) = false) -> h_ad (m_hdr r) = false)
+    /\ options_own tr c (client_opt q) r = true /\ no_ecs_ka tr c (client_opt q) r = true
+    /\ (tr = UDP -> blen + (if w_noedns w then 0 else opt_len (wire_opt c w ede)) <= udp_limit (client_opt q)).
+Proof. exact cache_wire_reply_respects_client_l. Qed.
+Print Assumptions cache_wire_reply_respects_client.
+
+(* the record-level header functions of the cache model ARE the composers' statements on the flags
+   word, written with internal/wire's own mask constants (Proofs_word.v): wire.ApplyReply; then
+   ClearAD; and SetRcode, SetRA, SetAD / a cleared AD — for every stored header with opcode 0 and every
+   request (exhaustive computation over the 4 096 x 64 combinations) *)
+Theorem cache_header_model_is_word_level :
+  forall st q rc,
+    h_opcode st = 0 -> h_rcode st < 16 -> h_opcode q < 16 -> rc < 16 ->
+    hdr_word (apply_reply st q) = apply_reply_w (hdr_word st) (h_opcode q) (h_rd q) (h_cd q)
+    /\ hdr_word (set_ad st false) = clear_ad_w (hdr_word st)
+    /\ hdr_word (with_rcode_ra_ad st rc true) = set_ad_w (set_ra_w (set_rcode_w (hdr_word st) rc))
+    /\ hdr_word (with_rcode_ra_ad st rc false) = clear_ad_w (set_ra_w (set_rcode_w (hdr_word st) rc)).
+Proof. exact cache_header_model_is_word_level_l. Qed.
+Print Assumptions cache_header_model_is_word_level.
+
+(* ---- session 5: the writer's filters are the translated Go functions ----
+   keepRelayable, stripECS, stripKeepalive (options of an OPT) and keepOPTOnly (additional section on
+   truncation), translated from middleware/edns/edns.go with dns.EDNS0 / dns.RR as sum types, ARE the
+   model's keep_relayable / strip_code code_ecs / strip_code code_keepalive / keep_opt_only — the
+   functions "client subnet, upstream keepalive and foreign options never reflected" and "a TC=1 reply
+   holding only question and OPT" rest on — for every option list and every additional section, under
+   ANY abstraction of options / records to the model's that respects the Go-type <-> code
+   correspondence (EDNS0_EDE = 15, EDNS0_SUBNET = 8, EDNS0_TCP_KEEPALIVE = 11; OPT records) *)
+Theorem edns_filters_are_the_translated_code :
+  forall (abs : I_EDNS0 -> eopt) (absx : I_RR -> xrr),
+    (forall o, (e_code (abs o) =? code_ede) = is_EDE o) ->
+    (forall o, (e_code (abs o) =? code_ecs) = is_SUBNET o) ->
+    (forall o, (e_code (abs o) =? code_keepalive) = is_KA o) ->
+    (forall x, is_opt (absx x) = is_OPT x) ->
+    (forall l, map abs (go_keepRelayable l) = keep_relayable (map abs l))
+    /\ (forall l, map abs (go_stripECS l) = strip_code code_ecs (map abs l))
+    /\ (forall l, map abs (go_stripKeepalive l) = strip_code code_keepalive (map abs l))
+    /\ (forall l, map absx (go_keepOPTOnly l) = keep_opt_only (map absx l)).
+Proof. exact edns_filters_are_the_translated_code_l. Qed.
+Print Assumptions edns_filters_are_the_translated_code.
